@@ -7,6 +7,10 @@
 //! `array_char!`, `array_string!`) take a run-time `String`, so they are also driven on Debug texts of random nested
 //! structures and exhaustively on short malformed texts; `Display` on every shape rank<=4 len<=3; the text forms of
 //! `Tuple2/Tuple3/List` exhaustively over a small alphabet.
+//! Robustness streams (FRAMEWORK.md): every `disp` case is rendered through BOTH receivers (`Array<T>` and the `PrintableResult` wrapper of
+//! `Result<Array<T>, ArrayError>`) under the same one of `{}` `{:#}` `{:.N}` `{:#.N}`; 16 element types incl. value classes; `disp_big_shapes()`
+//! (rows of 1001..2000 elements, more than 1000 rows, totals above 1000 from short rows) and `zero_shapes()`; typed value -> text -> value
+//! round trips of Tuple2/Tuple3/List over every primitive component type; literals of every primitive element type and of big shapes in `c18_gen`.
 use arrharness::*;
 use std::fmt::{Debug, Display};
 use std::str::FromStr;
@@ -325,9 +329,9 @@ fn gen(tier: &str, seed: u64, out: &mut dyn FnMut(String)) {
             // i32 and f64: all six combinations on every shape; the other element types: two combinations each, rotating, all six on the small ones
             for (c, (prec, alt)) in [("none", 0), ("2", 1), ("none", 1), ("2", 0), ("0", 0), ("0", 1)].iter().enumerate() {
                 // quick tier, above 900 elements (the real text form of many-row arrays and the model's parse-back are slow): i32 under the four
-                // combinations {} {:#.2} {:#} {:.2}, one further element type (rotating with the shape) under {} and {:#.2}; up to 900 elements i32 and
-                // f64 under all six, the other element types under two (rotating); up to 64 elements and in the thorough tier everything
-                let pick = if thorough || n <= 64 { true } else if n > 900 { (j == 0 && c < 4) || (j == 1 + i % 15 && c < 2) } else { j < 2 || c % 3 == (i + j) % 3 };
+                // combinations {} {:#.2} {:#} {:.2}, one further element type (rotating with the shape) under {} and {:#.2}; up to 900 elements (thorough:
+                // also above) i32 and f64 under all six, the other element types under two (rotating); up to 64 elements (thorough: 900) everything
+                let pick = if n <= 64 || (thorough && n <= 900) { true } else if n > 900 && !thorough { (j == 0 && c < 4) || (j == 1 + i % 15 && c < 2) } else { j < 2 || c % 3 == (i + j) % 3 };
                 if pick { disp_case(ty, s, prec, *alt, out); }
             }
         }
@@ -602,5 +606,5 @@ fn nontrivial(op: &str, args: &[&str]) -> bool {
 
 fn main() {
     harness_main(Spec { prop: "C18", gen, exec, nontrivial, hang_secs: 30,
-        rule: "compiled programs: every literal of c18_gen (all shapes rank<=4 len<=3 for i32; rank<=4 len<=2 + some 3/4 for f64,bool,char,String,Tuple2,Tuple3,List; multi-argument and flat forms; separator/escape element texts) + constructor/flat/single macros next to their functions; run-time: front-end macros on Debug texts of all shapes rank<=4 (len<=2 quick, <=3 thorough) + seeded random rank<=5 len<=4, exhaustive malformed texts over small alphabets; Display on every shape rank<=4 len<=3 (+empty, rank 0) x 7 element types x precision none/0/2 x plain/alternate; Tuple/List text forms exhaustively over a 7-letter alphabet. distinct = distinct case lines; non-trivial = >=2 axes longer than 1 (lit, disp), text of >= 8 characters (rt, shape), any argument of >= 2 characters (text forms)" });
+        rule: "compiled programs: every literal of c18_gen (all shapes rank<=4 len<=3 for i32; rank<=4 len<=2 + some 3/4 for f64,bool,char,String,Tuple2,Tuple3,List; u8,i8,i16,u16,u32,i64,u64,usize,isize,f32 and f64 specials with the extreme values of the type on 12 shapes each; axis lengths 7..17 in every position, 256..1200-element literals; multi-argument and flat forms; separator/escape element texts; tuple/list String components with blanks and empty strings) + constructor/flat/single macros next to their functions; run-time: front-end macros on Debug texts of all shapes rank<=4 (len<=2 quick, <=3 thorough) + seeded random rank<=5 len<=4, exhaustive malformed texts over small alphabets; Display on every shape rank<=4 len<=3 (+empty, rank 0) x 16 element types (i32,f64,bool,char,String,Tuple2,List,u8,i8,i64,u64,usize,f32, f64 specials, Tuple3<String,..>, List<String>) x precision none/0/2 x plain/alternate, each through BOTH receivers (Array and the PrintableResult wrapper of Result<Array,_>, Ok and Err side), + big_shapes() and rows of 999..2000 elements / more than 1000 rows / totals above 1000 from short rows, + zero_shapes(), + seeded shapes with one axis up to 1100; Tuple/List text forms exhaustively over a 7-letter alphabet + components with blanks / empty / 300 characters + lists of 17/300/1030 items + typed round trips (9 Tuple2, 7 Tuple3, 13 List instantiations over the value classes of every primitive type); front-end macros also on big_shapes() up to 320 (thorough 1300) elements, [1030] and zero_shapes(). distinct = distinct case lines; non-trivial = >=2 axes longer than 1 (lit, disp), text of >= 8 characters (rt, shape), any argument of >= 2 characters (text forms)" });
 }
